@@ -7,7 +7,7 @@ import re
 import xml.etree.ElementTree as ET
 
 from .. import cli, gen, model, scenario
-from ..core import Result
+from ..core import Inconclusive, Result
 from ..simcluster import SimCluster
 
 ID = "C08"
@@ -387,7 +387,8 @@ def run_localpool(case):
             if set(tid) != set(names):
                 res.violation("crash", "local run did not track all four targets: %s" % tid)
                 return res
-            pool.wait_states(lambda st: st.get(tid["ok"]) == "COMPLETED" and st.get(tid["bad"]) == "FAILED" and st.get(tid["slow"]) == "RUNNING", timeout=20)
+            if not pool.wait_states(lambda st: st.get(tid["ok"]) == "COMPLETED" and st.get(tid["bad"]) == "FAILED" and st.get(tid["slow"]) == "RUNNING", timeout=40):
+                raise Inconclusive("pool did not reach the expected task states in time: %s" % pool.states())
             r = cli.gwf(proj.root, ["status"], env, audit=False)
             table = dict(cli.parse_status(r.out))
             want = {"ok": {"completed"}, "bad": {"failed"}, "slow": {"running"}, "late": {"submitted"}}
@@ -398,7 +399,8 @@ def run_localpool(case):
                     res.violation("state-mismatch:local", "local pool: %s shown as %r, expected %s (pool states %s)" % (n, table.get(n), sorted(w), pool.states()), table=table)
             # cancel slow -> slow cancelled, late cancelled (dependency cancelled)
             r = cli.gwf(proj.root, ["cancel", "slow"], env, audit=False)
-            pool.wait_states(lambda st: st.get(tid["slow"]) == "CANCELLED" and st.get(tid["late"]) not in ("SUBMITTED", "RUNNING"), timeout=20)
+            if not pool.wait_states(lambda st: st.get(tid["slow"]) == "CANCELLED" and st.get(tid["late"]) not in ("SUBMITTED", "RUNNING"), timeout=40):
+                raise Inconclusive("pool did not carry out the cancellation in time: %s" % pool.states())
             r = cli.gwf(proj.root, ["status"], env, audit=False)
             table = dict(cli.parse_status(r.out))
             for n, w in {"slow": {"cancelled"}, "late": {"cancelled"}, "ok": {"completed"}, "bad": {"failed"}}.items():
@@ -411,7 +413,8 @@ def run_localpool(case):
             tracked = proj.state_files().get("local-backend-tracked.json", {})
             tracked["bad"] = ktid
             proj.write_state("local-backend-tracked.json", tracked)
-            pool.wait_states(lambda st: st.get(ktid) == "KILLED", timeout=30)
+            if not pool.wait_states(lambda st: st.get(ktid) == "KILLED", timeout=40):
+                raise Inconclusive("time-limited task not killed in time: %s" % pool.states())
             r = cli.gwf(proj.root, ["status"], env, audit=False)
             table = dict(cli.parse_status(r.out))
             res.mon("rows_checked")
